@@ -116,6 +116,76 @@ def _map_of(f, p, at=None):
     return None
 
 
+STORING = ("insert_or_assign", "emplace", "try_emplace", "insert", "emplace_hint")
+
+
+def _stored_into(f, st, mapname):
+    """the expression a statement files into member map `mapname` (`m[k] = v`, `m.insert_or_assign(k, v)`,
+    `m.emplace(k, v)`, `m.insert({k, v})`), or None"""
+    if st["k"] == "CXXOperatorCallExpr" and st.get("op") == "=" and len(st["args"]) == 2:
+        lhs = unwrap(f, f.s(st["args"][0]))
+        if lhs is not None and lhs["k"] == "CXXOperatorCallExpr" and lhs.get("op") == "[]" and \
+                path(f, f.s(lhs["args"][0])) == "this." + mapname:
+            return f.s(st["args"][1])
+    if st["k"] == "CXXMemberCallExpr" and (st.get("callee") or {}).get("name") in STORING and st["args"] and \
+            path(f, f.s(st.get("obj"))) == "this." + mapname:
+        v = unwrap(f, f.s(st["args"][-1]))
+        # insert(std::make_pair(k, v)) / insert({k, v}) / insert(value_type(k, v))
+        while v is not None and (v["k"] in CTORS or v["k"] == "InitListExpr" or
+                                 (v["k"] == "CallExpr" and callee_fq(v) == "std::make_pair")) and \
+                (v["k"] == "InitListExpr" or len(v.get("args", [])) in (1, 2)):
+            ch = f.children(v) if v["k"] == "InitListExpr" else [f.s(a) for a in v["args"]]
+            if not ch:
+                break
+            nxt = unwrap(f, ch[-1])
+            if nxt is None or nxt["id"] == v["id"]:
+                break
+            if path(f, nxt) is not None or _mapped_of(f, nxt) is not None:
+                return nxt
+            v = nxt
+        return v
+    return None
+
+
+def _mapped_of(f, e):
+    """`node.mapped()` of a node handle taken with `<map>.extract(x)`: (map name, path of x, position of the extract)"""
+    e = unwrap(f, e)
+    while e is not None and e["k"] == "CallExpr" and callee_fq(e) in ("std::move", "std::forward") and e["args"]:
+        e = unwrap(f, f.s(e["args"][0]))
+    if e is None or e["k"] != "CXXMemberCallExpr" or (e.get("callee") or {}).get("name") != "mapped":
+        return None
+    o = unwrap(f, f.s(e.get("obj")))
+    if o is None or o["k"] != "DeclRefExpr":
+        return None
+    for st in f.stmts.values():
+        if st["k"] == "DeclStmt":
+            for d in st["decls"]:
+                if d["id"] == o["d"].get("id") and d.get("init"):
+                    for x in [f.s(d["init"])] + list(f.descendants(f.s(d["init"]))):
+                        if x is not None and x["k"] == "CXXMemberCallExpr" and (x.get("callee") or {}).get("name") == "extract" and x["args"]:
+                            mp = path(f, f.s(x.get("obj"))) or ""
+                            if mp.startswith("this."):
+                                a = unwrap(f, f.s(x["args"][0]))
+                                while a is not None and a["k"] in CTORS and len(a["args"]) == 1:     # iterator -> const_iterator
+                                    a = unwrap(f, f.s(a["args"][0]))
+                                return mp[5:], path(f, a), f.pos_of(x)
+    return None
+
+
+def _same_promise(f, e, tgt, pm):
+    """does expression e denote the promise `tgt` (an element of pending map pm) - directly, or as the mapped value of
+    the node handle that element was extracted into"""
+    if e is None:
+        return False
+    if path(f, e) == tgt:
+        return True
+    mo = _mapped_of(f, e)
+    if mo is not None and mo[0] == pm and mo[1] is not None:
+        it = re.sub(r"(->|\.)second$", "", tgt)
+        return mo[1] == it
+    return False
+
+
 def drop_rule(ctx, rid="C18.drop"):
     """a promise whose future has been handed out is never destroyed unsatisfied (the consumer would get broken_promise):
     an operation that replaces or empties a whole pending map (assignment, clear, swap) satisfies its promises first"""
@@ -167,7 +237,7 @@ def pair(ctx, rid="C18.pair"):
             continue        # a move assignment retires the old content the way the destructor does (C18.drop judges it)
         svs = [st for st in f.stmts.values() if st["k"] == "CXXMemberCallExpr" and st["callee"]["name"] in ("set_value", "set_exception")]
         muts = [st for st in f.stmts.values() if (st["k"] == "CXXMemberCallExpr" and st["callee"]["name"] in
-                                                   ("erase", "clear", "extract", "insert", "emplace", "insert_or_assign", "swap", "merge")
+                                                   ("erase", "clear", "extract", "insert", "emplace", "try_emplace", "emplace_hint", "insert_or_assign", "swap", "merge")
                                                    and (path(f, f.s(st["obj"])) or "").startswith("this."))
                 or (st["k"] == "CXXOperatorCallExpr" and st.get("op") == "[]" and (path(f, f.s(st["args"][0])) or "").startswith("this."))]
         if not svs:
@@ -206,11 +276,8 @@ def pair(ctx, rid="C18.pair"):
                     if pos is None:
                         continue
                     pos = tuple(pos)
-                    if st["k"] == "CXXOperatorCallExpr" and st.get("op") == "=" and len(st["args"]) == 2:
-                        lhs = unwrap(f, f.s(st["args"][0]))
-                        if lhs is not None and lhs["k"] == "CXXOperatorCallExpr" and lhs.get("op") == "[]" and \
-                                path(f, f.s(lhs["args"][0])) == "this." + used and path(f, f.s(st["args"][1])) == tgt and pos in after:
-                            moved = True
+                    if pos in after and _same_promise(f, _stored_into(f, st, used), tgt, pm):
+                        moved = True
                     if st["k"] == "CXXMemberCallExpr" and path(f, f.s(st["obj"])) == "this." + pm and \
                             st["callee"]["name"] in ("erase", "clear", "extract"):
                         if pos in after:
@@ -230,11 +297,8 @@ def pair(ctx, rid="C18.pair"):
             # setDelayedValue / fulfillAllPromises of that key raises promise_already_satisfied)
             removals = []
             for st in f.stmts.values():
-                if st["k"] == "CXXOperatorCallExpr" and st.get("op") == "=" and len(st["args"]) == 2 and f.pos_of(st):
-                    lhs = unwrap(f, f.s(st["args"][0]))
-                    if lhs is not None and lhs["k"] == "CXXOperatorCallExpr" and lhs.get("op") == "[]" and \
-                            path(f, f.s(lhs["args"][0])) == "this." + used and path(f, f.s(st["args"][1])) == tgt:
-                        removals.append(tuple(f.pos_of(st)))
+                if f.pos_of(st) and _same_promise(f, _stored_into(f, st, used), tgt, pm):
+                    removals.append(tuple(f.pos_of(st)))
             between = None
             for st in f.stmts.values():
                 if st["k"] not in CALLS and st["k"] not in CTORS:
@@ -242,7 +306,10 @@ def pair(ctx, rid="C18.pair"):
                 c = st.get("callee") or {}
                 if st["id"] == sv["id"] or c.get("noexcept") or c.get("fq") in ("std::move", "std::forward"):
                     continue
-                if not (c.get("qname", "").startswith("vdrv::") or any("vdrv::" in p_ for p_ in c.get("params", []))):
+                # an operation ON the payload (a member of it, or a function handed a payload object) - not a member of a
+                # container or iterator whose type merely mentions it
+                from ..engine import strip_cvref
+                if not (c.get("qname", "").startswith("vdrv::") or any(strip_cvref(p_).startswith("vdrv::") for p_ in c.get("params", []))):
                     continue
                 if st["k"] in CTORS and c.get("params") and c["params"][0].rstrip().endswith("&&"):
                     continue
@@ -406,11 +473,11 @@ def query(ctx):
             ctx.ob(rid, ok, f.where, "finishedWithValue only drops a completed entry", "" if ok else str(finds), fn=f.label, inst=f.qname)
         elif f.name == "getFuture":
             gf = [st for st in f.stmts.values() if st["k"] == "CXXMemberCallExpr" and st["callee"]["name"] == "get_future"]
-            stores = [st for st in f.stmts.values() if st["k"] == "CXXOperatorCallExpr" and st.get("op") == "=" and len(st["args"]) == 2
-                      and (unwrap(f, f.s(st["args"][0])) or {}).get("op") == "[]"]
-            ok = len(gf) == 1 and len(stores) == 1 and path(f, f.s(stores[0]["args"][1])) == path(f, f.s(gf[0]["obj"])) and \
-                f.dominates(f.pos_of(gf[0]), f.pos_of(stores[0]))
-            lhs = unwrap(f, f.s(stores[0]["args"][0])) if stores else None
-            ok = ok and lhs is not None and path(f, f.s(lhs["args"][0])) == "this.promiseBy" + key
+            stores = [(st, _stored_into(f, st, "promiseBy" + key)) for st in f.stmts.values()]
+            stores = [(st, v) for st, v in stores if v is not None and f.pos_of(st)]
+            elsewhere = [st for st in f.stmts.values() for m_ in list(PENDING) + list(PENDING.values())
+                         if m_ != "promiseBy" + key and _stored_into(f, st, m_) is not None]
+            ok = len(gf) == 1 and len(stores) == 1 and not elsewhere and \
+                path(f, stores[0][1]) == path(f, f.s(gf[0]["obj"])) and f.dominates(f.pos_of(gf[0]), f.pos_of(stores[0][0]))
             ctx.ob(rid, ok, f.where, "getFuture returns the future of the promise it files under the key (pending map of its key type)",
                    "" if ok else "shape changed", fn=f.label, inst=f.qname)
